@@ -200,6 +200,56 @@ PROPS["C13"]["level_text"] = (
     "the witnesses of the recorded PrettyPrint defects and partial theorems; tied to go/pkg/schema and the generated otelstef "
     "code by op-for-op differential runs.")
 
+PROPS["C17"] = {
+    "lean_modules": ["Stef.Props.C17"],
+    "harness": [{"bin": "h_otlp", "args": ["metrics"]}],
+    "rule": ("cases = generated pmetric.Metrics batches (pools of 1-3 resources, 1-3 scopes, 1-4 metric identities of the five types, "
+             "combined with repetition and interleaving; attributes of every AnyValue kind with nested arrays and maps; flagged points; "
+             "per-point bounds; exemplars; float classes NaN payloads, inf, subnormal, max), converted by go/pdata/metrics in all four "
+             "combinations (unsorted|sorted writer x unsorted|sorted reader) and compared as multisets of data points by the harness's own "
+             "flattening; a clean stream (no known trigger; any failure is a fresh violation) plus one stream per known trigger class; "
+             "a case is non-trivial when it has at least two data points, a metric with two or more points (record carry-over) and a "
+             "point with attributes; distinct by hash of the encoded input. Op lines replay the input on the Lean model: records written "
+             "(m2s-u, m2s-s) and flattened round trips (rt-uu/us/su/ss)"),
+    "trusted_base": COMMON_TB + [
+        "Impl model Stef/Otlp/*.lean is a hand transcription of go/pdata/metrics, go/pdata/internal/otlptools and of the generated "
+        "otelstef setters/EnsureLen/CopyFrom the converters call; tied by h_otlp op-for-op (records written and round trips)",
+        "the byte codec is not part of this model (a record read is the logical value written: property C01); the RestartDictionaries "
+        "class (a codec defect) gets no op lines; sorted conversions of more than 12 points get none either (slices.SortFunc stability)",
+        "stefToOtlpSorted is unexported without constructor: the harness repeats its 15-line loop on the exported sortedbyresource package",
+    ],
+    "assumptions": ["pcommon.Map keys are distinct (pdata API invariant)", "slices.SortFunc is stable below 12 elements (insertion sort)",
+                    "modernc.org/b trees with a consistent comparator behave as sorted association lists"],
+}
+PROPS["C17"]["level_text"] = (
+    "Theorems over the converter models (Stef/Props/C17.lean): record count of the unsorted converter (general) and its failure for the "
+    "sorting one (witness), AnyValue conversion round trip (false as written: nested-map witness; partial for maps of at most one entry; "
+    "full for the fixed conversion), round trip of flattened data points through the unsorted converters for every clean batch (general, "
+    "by induction over the trees with the writer's re-used record as state); the sorted round trip is covered by correspondence and "
+    "the oracle only; the model is tied to go/pdata by op-for-op differential runs of all four converter combinations; the property oracle "
+    "(own multiset flattening) runs on a trigger-free stream and on one stream per recorded finding.")
+
+PROPS["C18"] = {
+    "lean_modules": ["Stef.Props.C18"],
+    "harness": [{"bin": "h_otlp", "args": ["traces"]}],
+    "rule": ("cases = generated ptrace.Traces batches (repeated resources and scopes that the sorting mode merges, spans with 0-3 events "
+             "and links varying in sequence, attributes of every kind, status, trace state, flags, parent ids, empty ids), converted by "
+             "go/pdata/traces in both modes, records read back with otelstef.SpansReader and compared field by field with the source span "
+             "(sorting mode: as multisets); a case is non-trivial when it has at least two spans and two consecutive spans of a scope differ "
+             "in their number of events or links (array re-use); distinct by hash of the encoded input"),
+    "trusted_base": COMMON_TB + [
+        "Impl model Stef/Otlp/Traces.lean is a hand transcription of go/pdata/traces/otlp2stef_unsorted.go and otlptools/compare.go; tied "
+        "by h_otlp op-for-op (t2s-u, t2s-s: the records as read back)",
+        "ids are compared through the representation the converter uses (hex text of the id, empty for the all-zero id); the harness also "
+        "checks that every id is exactly recoverable from the record",
+    ],
+    "assumptions": ["sort.SliceStable with a consistent order is the stable sort", "pcommon.Map keys are distinct"],
+}
+PROPS["C18"]["level_text"] = (
+    "Theorems over the traces converter model (Stef/Props/C18.lean): one record per span, content of every record (ids as injective hex "
+    "text), the sorting mode writes a permutation of the spans; tied to go/pdata/traces by op-for-op differential runs in both modes.")
+
+
 HOOK_COMMITS = ["dfe47e0", "f85f827"]
 NOT_CLAIMED = {
     "C11": ("byte equality between checked-in files and the output of text/template + gofmt (and the Java templates): "
